@@ -236,6 +236,10 @@ func (c *fctx) Zeros(dtype ml.DType, shape ...int) ml.Tensor {
 }
 
 func (c *fctx) FromFloatSlice(s []float32, shape ...int) (ml.Tensor, error) {
+	c.b.floatCalls++
+	if c.b.failFloat == c.b.floatCalls {
+		return nil, errFault
+	}
 	t := newTensor(ml.DTypeF32, shape...)
 	if len(s) != len(t.st.data) {
 		return nil, fmt.Errorf("fake backend: %d values for shape %v", len(s), shape)
@@ -245,6 +249,9 @@ func (c *fctx) FromFloatSlice(s []float32, shape ...int) (ml.Tensor, error) {
 }
 
 func (c *fctx) FromIntSlice(s []int32, shape ...int) (ml.Tensor, error) {
+	if c.b.failInt {
+		return nil, errFault
+	}
 	t := newTensor(ml.DTypeI32, shape...)
 	if len(s) != len(t.st.data) {
 		return nil, fmt.Errorf("fake backend: %d values for shape %v", len(s), shape)
@@ -291,7 +298,14 @@ type backend struct {
 	nodes int
 	cfg   ml.CacheConfig
 	zeros []*tensor // K/V storage in allocation order
+
+	// fault injection, per operation: the failFloat-th FromFloatSlice (mask upload) of the operation fails,
+	// every FromIntSlice (offsets of shift) fails, the model's shift function fails
+	failFloat, floatCalls int
+	failInt, failShiftFn  bool
 }
+
+var errFault = errors.New("fake backend: allocation failed")
 
 func (b *backend) NewContext() ml.Context        { return &fctx{b: b} }
 func (b *backend) NewContextSize(int) ml.Context { return &fctx{b: b} }
@@ -524,6 +538,9 @@ func runCase(c map[string]any) any {
 	var shift func(ctx ml.Context, layer int, key, shift ml.Tensor) (ml.Tensor, error)
 	if canShift {
 		shift = func(ctx ml.Context, layer int, key, sh ml.Tensor) (ml.Tensor, error) {
+			if b.failShiftFn {
+				return nil, errFault
+			}
 			kt, st := key.(*tensor), sh.(*tensor)
 			n := kt.Dim(2)
 			if kt.Dim(0) != kHeadDim || kt.Dim(1) != numKVHeads || st.Dim(0) != n || len(st.ne) != 1 {
@@ -604,6 +621,16 @@ func runCase(c map[string]any) any {
 	prim := func(op map[string]any) map[string]any {
 		st := map[string]any{"prim": op}
 		moves = nil
+		b.failFloat, b.floatCalls, b.failInt, b.failShiftFn = 0, 0, false, false
+		if f, ok := op["fault"].(map[string]any); ok {
+			b.failFloat = num(f["mask"])
+			switch f["shift"] {
+			case "alloc":
+				b.failInt = true
+			case "fn":
+				b.failShiftFn = true
+			}
+		}
 		r := hx.Guard(func() any {
 			switch op["op"] {
 			case "fwd", "reserve":
@@ -623,6 +650,8 @@ func runCase(c map[string]any) any {
 				if err != nil {
 					if errors.Is(err, kvcache.ErrKvCacheFull) {
 						st["err"] = "full"
+					} else if errors.Is(err, errFault) {
+						st["err"] = "backend"
 					} else {
 						st["err"] = err.Error()
 					}
@@ -752,6 +781,8 @@ func runCase(c map[string]any) any {
 				if err != nil {
 					if errors.Is(err, kvcache.ErrNotSupported) {
 						st["err"] = "notsupported"
+					} else if errors.Is(err, errFault) {
+						st["err"] = "backend"
 					} else {
 						st["err"] = err.Error()
 					}
@@ -808,10 +839,23 @@ func runCase(c map[string]any) any {
 			if st["err"] != nil && !panicked {
 				prim(map[string]any{"op": "rm", "seq": q, "b": 0, "e": maxInt32})
 			}
+		case "fwdf":
+			// a forward pass during which the backend fails, followed by the recovery the code base itself applies to a partly
+			// performed StartForward (WrapperCache.StartForward): Remove(seq_k, pos_k, MaxInt32) for every batch entry
+			st := prim(map[string]any{"op": "fwd", "seqs": op["seqs"], "pos": op["pos"], "toks": op["toks"], "fault": op["fault"]})
+			if st["err"] == "backend" && !panicked {
+				seqs, pos := ints(op["seqs"]), ints(op["pos"])
+				for k := range seqs {
+					if panicked {
+						break
+					}
+					prim(map[string]any{"op": "rm", "seq": seqs[k], "b": pos[k], "e": maxInt32})
+				}
+			}
 		case "rmc":
 			// Remove, and on error clear the sequence (kvcache/cache.go: "If an error occurs, the entire context for the
 			// sequence should be removed by calling Remove(seq, 0, math.MaxInt32)")
-			st := prim(map[string]any{"op": "rm", "seq": op["seq"], "b": op["b"], "e": op["e"]})
+			st := prim(map[string]any{"op": "rm", "seq": op["seq"], "b": op["b"], "e": op["e"], "fault": op["fault"]})
 			if st["err"] != nil && !panicked {
 				prim(map[string]any{"op": "rm", "seq": op["seq"], "b": 0, "e": maxInt32})
 			}
